@@ -9,6 +9,7 @@ macro_rules! sk_t { ($($n:ident: $t:ty, $l:literal, $u:literal;)*) => { paste::p
 	#[kani::proof] #[kani::unwind($u)] pub fn [<c18t_skip_ $n>]() { h_skip::<$t, $l>() } )* } } }
 crate::fixed_types_q!(sk_q);
 crate::fixed_types_t!(sk_t);
+crate::fixed_types_wide!(sk_t);
 macro_rules! skc_q { ($($n:ident: $t:ty, $c:expr, $l:literal, $nn:literal, $s:literal, $u:literal;)*) => { paste::paste! { $(
 	#[kani::proof] #[kani::unwind($u)] pub fn [<c18q_skip_ $n>]() { h_skip_cnt::<$t, $l>($c, $s) } )* } } }
 macro_rules! skc_t { ($($n:ident: $t:ty, $c:expr, $l:literal, $nn:literal, $s:literal, $u:literal;)*) => { paste::paste! { $(
